@@ -1,5 +1,6 @@
 (* C19 — Asynchronous sync delivers every blob eventually and its queue is durable. *)
 From Coq Require Import List NArith Bool Sorted.
+From PK.Generated Require Import Consts.
 From PK.Model Require Import C19.
 From PK.Proofs Require C19.
 Import ListNotations.
@@ -49,6 +50,19 @@ Theorem C19_missing_exact : forall srcl dstl, C19.ssorted (C19.keys srcl) -> C19
                                                        | Some q => negb (N.eqb (snd p) (snd q)) | None => false end) srcl).
 Proof. exact C19.missing_exact. Qed.
 Print Assumptions C19_missing_exact.
+
+(* fullSyncOnStart (D52): the sync loop - and with it every later upload - starts only if the start-up sync returns, which
+   it does exactly when its enumeration source closes its channel; today's source does (regenerated), like the pending
+   source; what the source held (up to one batch) is delivered either way *)
+Theorem C19_full_sync_source : sync_full_source_closes = true /\ sync_pending_source_closes = true.
+Proof. split; reflexivity. Qed.
+Print Assumptions C19_full_sync_source.
+
+Theorem C19_full_sync_then_loop : forall cap held,
+  full_sync_start sync_full_source_closes cap held = (firstn cap held, true) /\
+  full_sync_start false cap held = (firstn cap held, false).
+Proof. intros cap held. split; reflexivity. Qed.
+Print Assumptions C19_full_sync_then_loop.
 
 Example C19_nonvacuous :
   let es := [ESrcRecv 1; EQSet 1 true; EAck 1; ESrcRecv 2; EFetch 1 FCorrupt; EFetch 1 FOk; EDestRecv 1 RErr; EQSet 2 true; EAck 2;
